@@ -71,6 +71,31 @@ seperatorrune: 32
 
 _cache = {}
 
+# configuration sweep: one key (or one interacting pair) away from the project's value on the batch line; every entry was run on the
+# unchanged tree for all switch combinations (a key that needs further input files — GroundWaterFrom=2 — is not in the list)
+SWEEP = ["ETpot=1", "ETpot=2", "ETpot=3", "ETpot=4", "ETpot=5", "CO2method=1", "CO2method=2", "CO2method=3", "CO2StomataInfluence=0",
+         "PTF=1", "PTF=2", "PTF=3", "PTF=4", "PotMineralisation=1", "GroundWaterFrom=0", "GroundWaterFrom=1", "LeachingDepth=10", "LeachingDepth=20",
+         "InitSelection=1", "InitSelection=2", "InitSelection=4", "CropParameterFormat=yml", "ResultFileFormat=1 ResultFileExt=csv", "ResultFileExt=out",
+         "OutputIntervall=1", "OutputIntervall=10", "NDeposition=0", "NDeposition=45", "KcFactorBareSoil=0.6", "WeatherFileFormat=2 WeatherFile=%s.w6d",
+         "DivideCentury=50", "DivideCentury=70", "AnnualAverageTemperature=11.5", "CO2concentration=550", "OrganicMatterMineralProportion=0.2",
+         "GroundWaterPhase=20", "CoastDistance=10", "Latitude=48.1", "Altitude=500"]
+
+
+def sweep_of(seed):
+    r = random.Random(seed)
+    return r.choice(SWEEP) if r.random() < 0.7 else ""
+
+
+def apply_sweep(line, sw):
+    if not sw:
+        return line
+    if "OutputIntervall" in sw:
+        line = line.replace("OutputIntervall=0 ", "")
+    if "WeatherFileFormat" in sw:
+        line = line.replace("WeatherFolder=extreme", "WeatherFolder=historical")      # the generated rain scenario only has the csv layout
+    return line + " " + sw
+
+
 
 def daynum(d):
     return (d - D0).days
@@ -385,11 +410,12 @@ def write_project(ex, case):
     cfg2 = re.sub(r"(?m)^Fertilization:.*$", "Fertilization: %d" % (case["fertilization"] if case["fert_from"] == "config" else 77), cfg)
     assert cfg2 != cfg or "Fertilization: 100" in cfg
     open(cfgp, "w").write(cfg2)
-    return ("project=%s WeatherFolder=historical soilId=%s fcode=%s plotNr=10001 Altitude=73 Latitude=52.6 poligonID=1 "
+    case["sweep"] = sweep_of(case["layout_seed"] + 123)
+    return apply_sweep("project=%s WeatherFolder=historical soilId=%s fcode=%s plotNr=10001 Altitude=73 Latitude=52.6 poligonID=1 "
             "CropFileFormat=%s AutoIrrigation=0 AutoFertilization=0 AutoSowingHarvest=0 AutoHarvest=0 ManagementEvents=1 "
             "OutputIntervall=0 Dateformat=%d StartYear=%d EndDate=%s AnnualOutputDate=%s %sresultfolder=%s"
             % (name, case["soil"], case["fcode"], "txt" if case["crop_fmt"] == "txt" else "csv", f, case["begin"].year, fmt_date(case["end"], f), annual,
-               ("Fertilization=%d " % case["fertilization"]) if case["fert_from"] == "line" else "", os.path.join(ex, "R", name)))
+               ("Fertilization=%d " % case["fertilization"]) if case["fert_from"] == "line" else "", os.path.join(ex, "R", name)), case["sweep"])
 
 
 def _run(ctx):
@@ -528,7 +554,7 @@ def correspond(ctx):
             c.mismatches.append({"kind": "fertiliser-sums-between-days", "case": cs["idx"], "changes": cs["run"]["overnight_changes"],
                                  "first": cs["run"]["overnight_first"]})
         good.append(cs)
-        c.bump(FMTS[cs["fmt"]]); c.bump("fertilisation %d %% from %s" % (cs["fertilization"], cs["fert_from"])); c.bump("rotation file " + cs["crop_fmt"])
+        c.bump(FMTS[cs["fmt"]]); c.bump("fertilisation %d %% from %s" % (cs["fertilization"], cs["fert_from"])); c.bump("rotation file " + cs["crop_fmt"]); c.bump("sweep " + (cs["sweep"] or "(project configuration)"))
         c.bump("fert-events", len(cs["fert"])); c.bump("till-events", len(cs["till"])); c.bump("irr-events", len(cs["irr"]))
         c.bump("fired", len(cs["ev"]))
     tab = "Definition tab : list (frow float) := %s." % _table_coq(table)
